@@ -39,6 +39,22 @@ def early_part(ck, tier, rng):
                     break               # the device has had its first update: later interrupts are C07's subject
                 cases.append(dict(name=name, cfg=cfg, devs=devs, device=d, step=k, run=r))
                 terms.append(T(slevel.render_sim_case(cfg, devs, (1, 1), 0, [], t_end, r), P(d)))
+    # the interrupt is published before the master scheduler has even subscribed (components started first, an adapter
+    # interrupting at once, the scheduler coming up a few loop steps later): it is replayed during the scheduler's set-up
+    flat = ("flat", {1: dict(order=[(3, "dev"), (4, "dev"), (5, "dev")], conns=[(3, 1, 5, 1), (4, 1, 5, 2)])},
+            {3: (3, 400_000_000, 0), 4: (3, 300_000_000, 1), 5: (3, 700_000_000, 0)})
+    nlate = 0
+    for name, cfg, devs in [flat] + configs[:2]:
+        for d in [c for (c, k) in cfg[1]["order"] if k == "dev"]:
+            for sd in (3, 6):
+                for init in (0, 5_000_000_000):
+                    r = slevel.run_internal(cfg, devs, (1, 1), init, [], t_end, delays={"sched": sd}, early=(1, d))
+                    if not r.get("early_before_scheduler"):
+                        continue
+                    nlate += 1
+                    cases.append(dict(name=name + "-late-scheduler", cfg=cfg, devs=devs, device=d, step=1, run=r, sched_delay=sd, initial=init))
+                    terms.append(T(slevel.render_sim_case(cfg, devs, (1, 1), init, [], t_end, r, pre=[d]), P(d)))
+    ck.coverage.update(interrupts_before_the_scheduler_subscribed=nlate)
     bad = run_shards(PID + "_early", sprops.HEADER, "early_case", "check_initial_early", terms, shard_size=40)
     for i, c in enumerate(cases):
         ck.count(f"early:{c['name']}:{c['device']}:{c['step']}", bool(slevel.path_of(c["cfg"], c["device"])[1]))
@@ -52,7 +68,7 @@ def early_part(ck, tier, rng):
                   f"updated in the initial tick",
                   dict(kind="early", cfg={str(k): v for k, v in c["cfg"].items()}, devs={str(k): v for k, v in c["devs"].items()},
                        device=c["device"], step=c["step"], updates=[(cc, t) for (cc, t, _) in c["run"]["trace"]][:40],
-                       errors=c["run"]["errors"][:2]))
+                       errors=c["run"]["errors"][:2], sched_delay=c.get("sched_delay"), initial=c.get("initial", 0)))
         break
 
 
@@ -67,9 +83,13 @@ def replay(rp):
         return sprops.replay_S(rp)
     cfg = {int(k): dict(order=[(c, (kk if kk == "dev" else int(kk))) for c, kk in v["order"]], conns=[tuple(x) for x in v["conns"]]) for k, v in rp["cfg"].items()}
     devs = {int(k): tuple(v) for k, v in rp["devs"].items()}
-    r = slevel.run_internal(cfg, devs, (1, 1), 0, [], 700_000_003, inject=(rp["step"], rp["device"]))
-    bad = run_shards("replay", sprops.HEADER, "early_case", "check_initial_early",
-                     [T(slevel.render_sim_case(cfg, devs, (1, 1), 0, [], 700_000_003, r), P(rp["device"]))])
+    if rp.get("sched_delay"):
+        r = slevel.run_internal(cfg, devs, (1, 1), rp.get("initial", 0), [], 700_000_003, delays={"sched": rp["sched_delay"]}, early=(1, rp["device"]))
+        term = slevel.render_sim_case(cfg, devs, (1, 1), rp.get("initial", 0), [], 700_000_003, r, pre=[rp["device"]])
+    else:
+        r = slevel.run_internal(cfg, devs, (1, 1), 0, [], 700_000_003, inject=(rp["step"], rp["device"]))
+        term = slevel.render_sim_case(cfg, devs, (1, 1), 0, [], 700_000_003, r)
+    bad = run_shards("replay", sprops.HEADER, "early_case", "check_initial_early", [T(term, P(rp["device"]))])
     print("updates (device, time):", [(c, t) for (c, t, _) in r["trace"]][:40], "errors:", r["errors"][:2])
     print("codes:", bad.get(0, []))
     return 1 if bad or r["errors"] else 0
